@@ -1,7 +1,8 @@
 //! [vpsim seam] Simulated executor hook.
 //!
 //! This module is the only addition of the `rayon-core-sim` fork (plus the three
-//! call sites marked `[vpsim seam]` in `lib.rs`, `join/mod.rs` and `registry.rs`).
+//! call sites marked `[vpsim seam]` in `lib.rs`, `join/mod.rs`, `thread_pool/mod.rs`
+//! and `registry.rs`).
 //! When an executor is installed, `join`, `join_context` and `current_num_threads`
 //! consult it instead of the real registry; with none installed the crate behaves
 //! exactly like rayon-core 1.13.0 (needed for the miri layers, where the real pool
@@ -24,6 +25,11 @@ pub trait SimExec: Send + Sync {
     /// Run both arms (each exactly once) in an order, with `migrated` flags and
     /// with an overlap that a real pool could produce.
     fn join(&self, a: Arm<'_>, b: Arm<'_>);
+    /// simulated worker index of the code that is running now, reported by
+    /// `current_thread_index` (None: outside any simulated parallel section)
+    fn thread_index(&self) -> Option<usize> {
+        None
+    }
 }
 
 static EXEC: RwLock<Option<Arc<dyn SimExec>>> = RwLock::new(None);
